@@ -93,6 +93,23 @@ impl Node {
         n
     }
 
+    /// a node whose store directory exists but which has not been started yet
+    pub fn new_unopened(consensus: &Consensus, last_n: BlockNumber, interval: BlockNumber, max_outbound: u32) -> Node {
+        let tmp = tempfile::Builder::new().prefix("lcnode").tempdir().expect("tempdir");
+        Node {
+            tmp,
+            consensus: consensus.clone(),
+            last_n,
+            interval,
+            max_outbound,
+            inner: None,
+            bans: Vec::new(),
+            server_errors: Vec::new(),
+            exchanges: 0,
+            requests: BTreeMap::new(),
+        }
+    }
+
     /// what `subcmds.rs` does at start-up
     pub fn open(&mut self) {
         assert!(self.inner.is_none());
